@@ -87,6 +87,29 @@ theorem remove_metabolite_spec (y : Sys) (g : Good y.s) (m : Id) (hm : y.s.hasM 
 /-- … keeping cross-references and solver consistent; inside a context every step of it is recorded and taken back -/
 theorem remove_metabolite_step (y : Sys) (g : Good y.s) (m : Id) (hm : y.s.hasM m = true) : Step y (rmMet y m) := rmMet_step y g m hm
 
+/-- `Model.remove_metabolites([m], destructive=True)` does what it documents: the metabolite is gone, and of the reactions of the model exactly those
+that had a coefficient for it are gone too; the reactions that stay keep their stoichiometry.  It keeps cross-references and solver consistent and is
+taken back by the enclosing context -/
+theorem remove_metabolite_destructive_spec (y : Sys) (g : Good y.s) (m : Id) (hm : y.s.hasM m = true) :
+    let s' := (rmMetD y m).s
+    Step y (rmMetD y m) ∧ s'.hasM m = false ∧ s'.hasC m = false ∧ (∀ x, x ≠ m → s'.hasM x = y.s.hasM x) ∧
+    (∀ r, y.s.hasR r = true → (s'.hasR r = true ↔ y.s.st r m = 0)) ∧ (∀ r, s'.hasR r = true → y.s.hasR r = true) ∧ s'.st = y.s.st :=
+  ⟨rmMetD_step y g m hm, rmMetD_effect y g m hm⟩
+
+/-- `remove_reactions([r], remove_orphans=True)`: the reaction leaves, every other reaction stays, no metabolite or gene appears (the ones that
+leave are metabolites / genes of the reaction that nothing lists any more); cross-references and solver stay consistent and the enclosing context
+takes all of it back -/
+theorem remove_reaction_orphans_spec (y : Sys) (g : Good y.s) (r : Id) (hr : y.s.hasR r = true) :
+    Step y (removeRxnO y r) ∧ (removeRxnO y r).s.hasR r = false ∧ (∀ x, x ≠ r → (removeRxnO y r).s.hasR x = y.s.hasR x) ∧
+    (∀ m, (removeRxnO y r).s.hasM m = true → y.s.hasM m = true) ∧ (∀ x, (removeRxnO y r).s.hasG x = true → y.s.hasG x = true) :=
+  removeRxnO_step y g r hr
+
+/-- `remove_reactions(list, remove_orphans)`: afterwards none of the listed reactions is in the model, every reaction not listed is untouched,
+identifiers that are not in the model are skipped; consistent, and taken back by the enclosing context -/
+theorem remove_reactions_list_spec (orphans : Bool) (rs : List Id) (y : Sys) (g : Good y.s) :
+    Step y (removeRxns orphans rs y) ∧ (∀ r ∈ rs, (removeRxns orphans rs y).s.hasR r = false) ∧
+    (∀ x, x ∉ rs → (removeRxns orphans rs y).s.hasR x = y.s.hasR x) := removeRxns_step orphans rs y g
+
 /-- `reaction *= k` (k ≠ 0) does what it documents: it never raises, every coefficient of the reaction is multiplied by `k`, a negative `k` swaps
 and negates the bounds, other reactions keep coefficients and bounds, membership, rules and objective stay; cross-references and solver stay
 consistent and the enclosing context takes it back -/
